@@ -339,7 +339,9 @@ impl ASN1Type {
                         .iter()
                         .any(|m| m.ty.contains_components_of_notation())
             }
-            ASN1Type::SequenceOf(so) => so.element_type.contains_components_of_notation(),
+            ASN1Type::SequenceOf(so) | ASN1Type::SetOf(so) => {
+                so.element_type.contains_components_of_notation()
+            }
             _ => false,
         }
     }
@@ -382,7 +384,9 @@ impl ASN1Type {
                 }
                 member_linking
             }
-            ASN1Type::SequenceOf(so) => so.element_type.link_components_of_notation(tlds),
+            ASN1Type::SequenceOf(so) | ASN1Type::SetOf(so) => {
+                so.element_type.link_components_of_notation(tlds)
+            }
             _ => false,
         }
     }
